@@ -26,7 +26,7 @@ class Unsupported(Exception):
     pass
 
 
-META = {"A", "B", "C", "D"}
+META = set("ABCDEFGHIJKLMNOP")
 
 
 def _match(pat, node, b):
@@ -101,6 +101,14 @@ class Fn:
                 if callable(tmpl):
                     return tmpl(self, b)
                 return tmpl.format(**{k: self.E(v) for k, v in b.items()})
+        if isinstance(e, ast.Constant) and e.value is None:
+            return "none"
+        if isinstance(e, ast.Attribute) and isinstance(e.value, ast.Name) and e.value.id in self.cfg.get("records", ()):
+            return "%s.%s" % (e.value.id, e.attr)
+        if isinstance(e, ast.IfExp) and self.is_none_test(e.test):
+            x, is_none = self.is_none_test(e.test)
+            a, b = (e.body, e.orelse) if is_none else (e.orelse, e.body)
+            return "(match %s with | none => %s | some %s => %s)" % (x, self.E(a), x, self.E(b))
         if isinstance(e, ast.Constant):
             if isinstance(e.value, bool):
                 return "true" if e.value else "false"
@@ -120,28 +128,54 @@ class Fn:
             return "(%s %s %s)" % (a, op, c) if op in ("==", "!=") else "decide (%s %s %s)" % (a, op, c)
         if isinstance(e, ast.BoolOp):
             op = " && " if isinstance(e.op, ast.And) else " || "
-            return "(" + op.join(self.E(v) for v in e.values) + ")"
+            return "(" + op.join(self.T(v) for v in e.values) + ")"
         if isinstance(e, ast.UnaryOp) and isinstance(e.op, ast.Not):
-            return "(!%s)" % self.E(e.operand)
+            return "(!%s)" % self.T(e.operand)
         if isinstance(e, ast.Tuple):
             return "(" + ", ".join(self.E(v) for v in e.elts) + ")"
         raise Unsupported("expression `%s`" % ast.unparse(e))
 
-    # ---------- statements
+    def T(self, e):
+        """an expression in a truth-value context (`if`, `not`, `and`/`or` operands)"""
+        if isinstance(e, (ast.Compare, ast.BoolOp)) or (isinstance(e, ast.UnaryOp) and isinstance(e.op, ast.Not)):
+            return self.E(e)
+        return "Py.truthy %s" % self.atom(self.E(e)) if self.cfg.get("truthiness") else self.E(e)
+
     @staticmethod
-    def always_leaves(stmts):
+    def atom(x):
+        return x if re.fullmatch(r"[\w.]+|\(.*\)", x) else "(%s)" % x
+
+    @staticmethod
+    def is_none_test(t):
+        """(`x`, True) for `x is None`, (`x`, False) for `x is not None`, x a plain name; else None"""
+        if isinstance(t, ast.Compare) and len(t.ops) == 1 and isinstance(t.ops[0], (ast.Is, ast.IsNot)) \
+                and isinstance(t.left, ast.Name) and isinstance(t.comparators[0], ast.Constant) and t.comparators[0].value is None:
+            return lean_name(t.left.id), isinstance(t.ops[0], ast.Is)
+        return None
+
+    # ---------- statements
+    def is_terminal(self, s):
+        return any(t.startswith("!") and _match(p, s, {}) for p, t in self.srules)
+
+    def always_leaves(self, stmts):
+        stmts = [x for x in stmts if not self.is_skipped(x)]
         if not stmts:
             return False
         s = stmts[-1]
-        if isinstance(s, (ast.Return, ast.Raise)):
+        if isinstance(s, (ast.Return, ast.Raise)) or self.is_terminal(s):
             return True
         if isinstance(s, ast.If):
-            return Fn.always_leaves(s.body) and Fn.always_leaves(s.orelse)
+            return self.always_leaves(s.body) and self.always_leaves(s.orelse)
         return False
 
-    @staticmethod
-    def has_leave(stmts):
-        return any(isinstance(n, (ast.Return, ast.Raise)) for s in stmts for n in ast.walk(s))
+    def has_leave(self, stmts):
+        return any(isinstance(n, (ast.Return, ast.Raise)) or (isinstance(n, ast.stmt) and self.is_terminal(n))
+                   for s in stmts for n in ast.walk(s))
+
+    def only_raises(self, stmts):
+        """every way out of these statements other than falling through is a `raise`"""
+        return not any(isinstance(n, ast.Return) or (isinstance(n, ast.stmt) and self.is_terminal(n))
+                       for s in stmts for n in ast.walk(s))
 
     @staticmethod
     def assigned(stmts):
@@ -183,11 +217,19 @@ class Fn:
         for pat, tmpl in self.srules:
             b = {}
             if _match(pat, s, b):
-                return [pad + tmpl.format(**{k: self.E(v) for k, v in b.items()})] + self.S_(rest, ind, end, live_after)
+                line = pad + tmpl.lstrip("!").format(**{k: self.E(v) for k, v in b.items()})
+                if tmpl.startswith("!"):                   # a rule that ends the function (its value is the result)
+                    if any(not self.is_skipped(r) for r in rest):
+                        raise Unsupported("statements after `%s`" % ast.unparse(s).splitlines()[0])
+                    return [line]
+                return [line] + self.S_(rest, ind, end, live_after)
         if isinstance(s, ast.Assign) and len(s.targets) == 1:
             t = s.targets[0]
             if isinstance(t, ast.Name):
-                return [pad + "let %s := %s" % (lean_name(t.id), self.E(s.value))] + self.S_(rest, ind, end, live_after)
+                v = self.E(s.value)
+                if t.id in self.cfg.get("optional_vars", ()) and not (isinstance(s.value, ast.Constant) and s.value.value is None):
+                    v = "some %s" % self.atom(v)
+                return [pad + "let %s := %s" % (lean_name(t.id), v)] + self.S_(rest, ind, end, live_after)
             if isinstance(t, ast.Tuple) and isinstance(s.value, ast.Tuple) and len(t.elts) == len(s.value.elts) \
                     and all(isinstance(x, ast.Name) for x in t.elts):
                 names = [x.id for x in t.elts]
@@ -210,11 +252,30 @@ class Fn:
             return [pad + "pure (%s)" % v]
         if isinstance(s, ast.Raise):
             exc = s.exc.func.id if isinstance(s.exc, ast.Call) else getattr(s.exc, "id", None)
+            if "raise_by_message" in self.cfg:
+                msg = s.exc.args[0].value if isinstance(s.exc, ast.Call) and s.exc.args and isinstance(s.exc.args[0], ast.Constant) else None
+                for key, val in self.cfg["raise_by_message"]:
+                    if exc == "ValueError" and isinstance(msg, str) and msg.startswith(key):
+                        return [pad + self.raise_.format(val)]
+                raise Unsupported("raise " + ast.unparse(s))
             if exc not in self.errs:
                 raise Unsupported("raise " + ast.unparse(s))
             return [pad + self.raise_.format(self.errs[exc])]
         if isinstance(s, ast.If):
             return self.If(s, rest, ind, end, live_after)
+        if isinstance(s, ast.Try) and len(s.body) == 1 and isinstance(s.body[0], ast.Assign) and len(s.handlers) == 1 \
+                and not s.orelse and not s.finalbody and isinstance(s.body[0].targets[0], ast.Name) \
+                and isinstance(s.handlers[0].type, ast.Name) and s.handlers[0].type.id in self.errs and s.handlers[0].name is None:
+            # `try: x = f(..) except ValueError: <handler>`: f is translated to a function into `Except Err`;
+            # the handler takes every error of f (f raises nothing but that exception: stated by the rule for f)
+            x = s.body[0].targets[0].id
+            ls = [pad + "match %s with" % self.E(s.body[0].value), pad + "| Except.error _ =>"]
+            if not self.always_leaves(s.handlers[0].body):
+                raise Unsupported("exception handler that falls through")
+            ls += self.S(s.handlers[0].body, ind + 1, end, live_after)
+            ls += [pad + "| Except.ok %s =>" % lean_name(x)]
+            self.defd.add(x)
+            return ls + self.S_(rest, ind + 1, end, live_after)
         if isinstance(s, ast.For) and not s.orelse and isinstance(s.target, ast.Name):
             return self.Loop(s, rest, ind, end, live_after, "for")
         if isinstance(s, ast.While) and not s.orelse and isinstance(s.test, ast.Constant) and s.test.value is True:
@@ -224,19 +285,38 @@ class Fn:
     def If(self, s, rest, ind, end, live_after):
         pad = "  " * ind
         t = s.test
-        # `x is None` / `x is not None`
-        if isinstance(t, ast.Compare) and len(t.ops) == 1 and isinstance(t.ops[0], (ast.Is, ast.IsNot)) \
-                and isinstance(t.left, ast.Name) and isinstance(t.comparators[0], ast.Constant) and t.comparators[0].value is None:
-            some_body, none_body = (s.orelse, s.body) if isinstance(t.ops[0], ast.Is) else (s.body, s.orelse)
-            x = lean_name(t.left.id)
-            if not (self.always_leaves(s.body) or self.always_leaves(s.orelse) or not rest):
-                raise Unsupported("`is None` test whose branches both fall through into more statements")
-            ls = [pad + "match %s with" % x, pad + "| some %s =>" % x]
-            ls += self.S(some_body + ([] if self.always_leaves(some_body) else rest), ind + 1, end, live_after)
-            ls += [pad + "| none =>"]
-            ls += self.S(none_body + ([] if self.always_leaves(none_body) else rest), ind + 1, end, live_after)
-            return ls
-        c = self.E(t)
+        s = ast.If(test=t, body=[x for x in s.body if not self.is_skipped(x)], orelse=[x for x in s.orelse if not self.is_skipped(x)])
+        # `x is None` / `x is not None` (x a name, or an attribute of a record such as `args.salt`): a `match`; inside the
+        # `some` branch the name stands for the value
+        nt = self.is_none_test(t)
+        if nt is None and isinstance(t, ast.Compare) and len(t.ops) == 1 and isinstance(t.ops[0], (ast.Is, ast.IsNot)) \
+                and isinstance(t.left, ast.Attribute) and isinstance(t.left.value, ast.Name) \
+                and t.left.value.id in self.cfg.get("records", ()) \
+                and isinstance(t.comparators[0], ast.Constant) and t.comparators[0].value is None:
+            fresh = "%s_%s" % (t.left.value.id, t.left.attr)
+            key = ast.dump(t.left)
+
+            class Sub(ast.NodeTransformer):
+                def visit_Attribute(self, n):
+                    if ast.dump(n) == key:
+                        return ast.copy_location(ast.Name(id=fresh, ctx=ast.Load()), n)
+                    return self.generic_visit(n)
+            import copy
+            sb = [Sub().visit(copy.deepcopy(x)) for x in (s.orelse if isinstance(t.ops[0], ast.Is) else s.body)]
+            nb = s.body if isinstance(t.ops[0], ast.Is) else s.orelse
+            return self.IsNone(self.E(t.left), fresh, sb, nb, rest, ind, end, live_after)
+        if nt is not None:
+            x, is_none = nt
+            some_body, none_body = (s.orelse, s.body) if is_none else (s.body, s.orelse)
+            return self.IsNone(x, x, some_body, none_body, rest, ind, end, live_after)
+        c = self.T(t)
+        if self.cfg.get("guards") and rest and self.only_raises(s.body + s.orelse) and self.has_leave(s.body + s.orelse) \
+                and not [v for v in self.assigned(s.body + s.orelse) if v in (self.loaded(rest) | set(live_after))]:
+            unit = lambda i: ["  " * i + "pure ()"]                                   # noqa: E731
+            ls = [pad + "(if %s then do" % c] + self.S(s.body, ind + 2, unit, ())
+            ls += [pad + "  else do"] + self.S(s.orelse, ind + 2, unit, ())
+            ls[-1] += ")"
+            return ls + self.S_(rest, ind, end, live_after)
         if self.always_leaves(s.body):
             ls = [pad + "if %s then do" % c] + self.S(s.body, ind + 1, end, live_after)
             return ls + [pad + "else do"] + self.S(s.orelse + rest, ind + 1, end, live_after)
@@ -254,8 +334,50 @@ class Fn:
             ls += [pad + "  else do"] + self.S(s.orelse, ind + 2, fin, set(vs))
             ls[-1] += ")"
             return ls + self.S_(rest, ind, end, live_after)
+        live = self.loaded(rest) | set(live_after)
+        if self.only_raises(s.body + s.orelse) and not [v for v in self.assigned(s.body + s.orelse) if v in live]:
+            # a guard: nothing assigned that is used later, the only way out is `raise`; then the rest follows once
+            unit = lambda i: ["  " * i + "pure ()"]                                   # noqa: E731
+            ls = [pad + "(if %s then do" % c] + self.S(s.body, ind + 2, unit, ())
+            ls += [pad + "  else do"] + self.S(s.orelse, ind + 2, unit, ())
+            ls[-1] += ")"
+            return ls + self.S_(rest, ind, end, live_after)
         ls = [pad + "if %s then do" % c] + self.S(s.body + rest, ind + 1, end, live_after)
         return ls + [pad + "else do"] + self.S(s.orelse + rest, ind + 1, end, live_after)
+
+    def IsNone(self, scrut, x, some_body, none_body, rest, ind, end, live_after):
+        pad = "  " * ind
+        if self.always_leaves(some_body) or self.always_leaves(none_body) or not rest:
+            ls = [pad + "match %s with" % scrut, pad + "| some %s =>" % x]
+            ls += self.S(some_body + ([] if self.always_leaves(some_body) else rest), ind + 1, end, live_after)
+            ls += [pad + "| none =>"]
+            ls += self.S(none_body + ([] if self.always_leaves(none_body) else rest), ind + 1, end, live_after)
+            return ls
+        live = self.loaded(rest) | set(live_after)
+        if (self.has_leave(some_body) or self.has_leave(none_body)) and self.only_raises(some_body + none_body) \
+                and not [v for v in self.assigned(some_body + none_body) if v in live]:
+            unit = lambda i: ["  " * i + "pure ()"]                                   # noqa: E731
+            ls = [pad + "(match %s with" % scrut, pad + "  | some %s => do" % x] + self.S(some_body, ind + 2, unit, ())
+            ls += [pad + "  | none => do"] + self.S(none_body, ind + 2, unit, ())
+            ls[-1] += ")"
+            return ls + self.S_(rest, ind, end, live_after)
+        if self.has_leave(some_body) or self.has_leave(none_body):           # a conditional leave: the rest follows in both branches
+            ls = [pad + "match %s with" % scrut, pad + "| some %s =>" % x]
+            ls += self.S(some_body + rest, ind + 1, end, live_after)
+            ls += [pad + "| none =>"]
+            ls += self.S(none_body + rest, ind + 1, end, live_after)
+            return ls
+        live = self.loaded(rest) | set(live_after)
+        vs = [v for v in self.assigned(some_body + none_body) if v in live]
+        tup = ", ".join(lean_name(v) for v in vs)
+        tup = "(%s)" % tup if len(vs) != 1 else tup
+        fin = lambda i: ["  " * i + "pure %s" % (tup if vs else "()")]           # noqa: E731
+        ls = [pad + "let %s ← (match %s with" % (tup if vs else "_", scrut), pad + "  | some %s => do" % x]
+        ls += self.S(some_body, ind + 2, fin, set(vs))
+        ls += [pad + "  | none => do"] + self.S(none_body, ind + 2, fin, set(vs))
+        ls[-1] += ")"
+        self.defd |= set(vs)
+        return ls + self.S_(rest, ind, end, live_after)
 
     def Loop(self, s, rest, ind, end, live_after, kind):
         pad = "  " * ind
@@ -387,6 +509,16 @@ FUNCS = [
                      ("range(len(A))", "List.range (List.length {A})"),
                      ("A[:B]", "List.take {B} {A}"),
                      ("A + '0'", "({A} ++ [false])"), ("A + '1'", "({A} ++ [true])")]),
+    dict(module="netconan/ip_anonymization.py", qual="_anonymize_match", name="anonymize_match",
+         sig="(h : Bits → Bool) (fam6 : Bool) (nets : List Mask.Net) (L B : Nat) (match_ : List Char) (undo_ip_anon : Bool) : Py.M (List Char)",
+         skip_stmts=["logging.debug(A, B)", "logging.debug(A, B, C)"],
+         expr_rules=[("anonymizer.make_addr(A)", "(if fam6 then IpText.parseV6 {A} else IpText.parseV4 {A})"),
+                     ("int(ip)", "ip"),
+                     ("anonymizer.should_anonymize(A)", "(fam6 || Mask.shouldAnonymize nets {A})"),
+                     ("anonymizer.deanonymize(A)", "(← deanonymize h L B {A})"),
+                     ("anonymizer.anonymize(A)", "(← anonymize h L B {A})"),
+                     ("anonymizer.make_addr_from_int(A)", "{A}"),
+                     ("str(new_ip)", "(if fam6 then IpText.showV6 new_ip else IpText.showV4 new_ip)")]),
     dict(module="netconan/sensitive_item_removal.py", qual="_check_sensitive_item_format", name="check_sensitive_item_format",
          sig="(fs : List Regex.Re) (val : List Char) : Secrets.Fmt", run="Id.run ",
          expr_rules=[("re.match(A, B)", _re_match_rule)] +
@@ -413,13 +545,33 @@ def format_literals(repo=REPO):
     return [v for _, _, v in sorted(out)]
 
 
+CLI_FIELDS = ["input", "output", "anonymize_passwords", "anonymize_ips", "salt", "dump_ip_map", "sensitive_words", "undo",
+              "as_numbers", "reserved_words", "preserve_prefixes", "preserve_addresses"]
+FUNCS.append(
+    dict(module="netconan/netconan.py", qual="main", name="main", sig="(args : Cli.Parsed) : Except Cli.Reject Cli.Outcome",
+         records=("args",), truthiness=True, guards=True, add="++", raise_="throw Cli.Reject.{}", fallthrough="pure Cli.Outcome.noop",
+         optional_vars=("as_numbers", "reserved_words", "sensitive_words", "preserve_prefixes", "preserve_addresses"),
+         raise_by_message=[("Input must be specified", "inputMissing"), ("Output must be specified", "outputMissing"),
+                           ("Cannot anonymize and undo", "undoWithAnonymize"), ("Salt used for anonymization must be specified", "undoWithoutSalt"),
+                           ("Can only dump IP address map", "dumpWithoutIps")],
+         skip_stmts=["args = _parse_args(argv)", "log_level = logging.getLevelName(args.log_level)",
+                     "logging.basicConfig(format='%(levelname)s %(message)s', level=log_level)", "logging.warning(A)"],
+         expr_rules=[("A.split(',')", "Cli.splitComma {A}"), ("list(IpAnonymizer.RFC_1918_NETWORKS)", "Cli.rfc1918"),
+                     ("any([A, B, C, D, E])", "(Py.truthy {A} || Py.truthy {B} || Py.truthy {C} || Py.truthy {D} || Py.truthy {E})")],
+         stmt_rules=[("anonymize_files(A, B, C, D, E, F, G, H, I, J, K, L, preserve_suffix_v4=M, preserve_suffix_v6=N)",
+                      "!pure (Cli.Outcome.call {{ input := {A}, output := {B}, anonPwd := {C}, anonIp := {D}, salt := {E}, dump := {F}, "
+                      "words := {G}, undo := {H}, asNumbers := {I}, reserved := {J}, preservePrefixes := {K}, preserveNetworks := {L}, "
+                      "suffixV4 := {M}, suffixV6 := {N} }})")]))
+
 GROUPS = {
-    "SrcIp": dict(imports=["Netconan.Model.Py", "Netconan.Model.Mask"], serves=["C01", "C02", "C03", "C04", "C05", "C17"],
-                  funcs=["is_mask", "anonymize_bits", "deanonymize_bits", "anonymize", "deanonymize", "seed_loop"]),
+    "SrcIp": dict(imports=["Netconan.Model.Py", "Netconan.Model.Mask", "Netconan.Model.IpText"],
+                  serves=["C01", "C02", "C03", "C04", "C05", "C17"],
+                  funcs=["is_mask", "anonymize_bits", "deanonymize_bits", "anonymize", "deanonymize", "seed_loop", "anonymize_match"]),
     "SrcSecrets": dict(imports=["Netconan.Model.Py", "Netconan.Model.Secrets"], serves=["C07", "C08", "C09"],
                        funcs=["check_sensitive_item_format"]),
     "SrcAs": dict(imports=["Netconan.Model.Py", "Netconan.Model.Words"], serves=["C11"],
                   funcs=["generate_as_number_replacement"]),
+    "SrcCli": dict(imports=["Netconan.Model.Py", "Netconan.Model.Cli"], serves=["C19"], funcs=["main"]),
 }
 
 
